@@ -231,7 +231,7 @@ func jsonProp(p *Pkg, _ *Pkg, payload json.RawMessage, res *Result) {
 					res.Count("fault-"+d.Fault, 1)
 					if uerr == nil {
 						bad("accepted-faulty-document", where+" "+d.Fault+" "+d.Note, d.JSON, "decoded without error", "error naming "+d.Prop)
-					} else if !strings.Contains(uerr.Error(), d.Prop) {
+					} else if !ErrNames(uerr, d.Prop) {
 						bad("error-does-not-name-property", where+" "+d.Fault, d.JSON, "error: "+uerr.Error(), "error naming "+d.Prop)
 					}
 				}
